@@ -120,6 +120,13 @@ def bbnDel (m : AMap (List Nat)) (n b : Nat) : AMap (List Nat) :=
   | none => m
   | some bs => let bs' := bs.filter (· != b); if bs'.isEmpty then m.del n else m.set n bs'
 
+/-- repaired `onBlockUpdated`: when a block's affinity moved straight from another host, the old
+node no longer has this block -/
+def dropOld (nbb : AMap Nat) (bbn : AMap (List Nat)) (b n : Nat) : AMap (List Nat) :=
+  match nbb.get b with
+  | some old => if old != n then bbnDel bbn old b else bbn
+  | none => bbn
+
 /-- `releaseAllocation` -/
 def releaseAlloc (s : St) (a : Alloc) : St :=
   markDirty { s with allocs := s.allocs.filter (fun x => x.id != a.id), leaks := s.leaks.filter (· != a.id) } a.node
@@ -153,24 +160,24 @@ def upsertAll (s : St) (b : Nat) : List Entry → St
 def currentIds (b : Nat) (es : List Entry) : List Id :=
   es.filterMap (fun e => e.handle.map (fun h => (h, b, e.ord)))
 
+/-- affinity bookkeeping of `onBlockUpdated` -/
+def affinityStage (s : St) (b : Nat) : Option Nat → St
+  | some n => { s with nodesByBlock := s.nodesByBlock.set b n, blocksByNode := bbnAdd (dropOld s.nodesByBlock s.blocksByNode b n) n b }
+  | none => match s.nodesByBlock.get b with
+    | some n' => { s with nodesByBlock := s.nodesByBlock.del b, blocksByNode := bbnDel s.blocksByNode n' b }
+    | none => s
+
+/-- empty-block tracking of `onBlockUpdated` -/
+def emptyStage (s : St) (b : Nat) (isEmpty : Bool) : Option Nat → St
+  | some n => if isEmpty then { s with emptyBlocks := s.emptyBlocks.set b n }
+              else { s with emptyBlocks := s.emptyBlocks.del b, tracker := s.tracker.del b }
+  | none => { s with emptyBlocks := s.emptyBlocks.del b }
+
 /-- `onBlockUpdated` -/
 def onBlockUpdated (s : St) (b : Nat) (aff : Option Nat) (es : List Entry) : St :=
-  -- affinity bookkeeping
-  let s1 : St := match aff with
-    | some n => { s with nodesByBlock := s.nodesByBlock.set b n, blocksByNode := bbnAdd s.blocksByNode n b }
-    | none => match s.nodesByBlock.get b with
-      | some n' => { s with nodesByBlock := s.nodesByBlock.del b, blocksByNode := bbnDel s.blocksByNode n' b }
-      | none => s
-  let s2 := upsertAll s1 b es
-  -- empty-block tracking
-  let s3 : St := match aff with
-    | some n => if es.isEmpty then { s2 with emptyBlocks := s2.emptyBlocks.set b n }
-                else { s2 with emptyBlocks := s2.emptyBlocks.del b, tracker := s2.tracker.del b }
-    | none => { s2 with emptyBlocks := s2.emptyBlocks.del b }
+  let s3 := emptyStage (upsertAll (affinityStage s b aff) b es) b es.isEmpty aff
   -- allocations that disappeared from the block
-  let cur := currentIds b es
-  let gone := s3.allocs.filter (fun a => a.block == b && !cur.contains a.id)
-  let s4 := releaseAll s3 gone
+  let s4 := releaseAll s3 (s3.allocs.filter (fun a => a.block == b && !(currentIds b es).contains a.id))
   { s4 with allBlocks := sins s4.allBlocks b }
 
 /-- `forgetBlock` -/
